@@ -169,7 +169,83 @@ def judge(pipeline, faults, base, obs, second_alone=None):
     return out
 
 
+# ---- unprocessable dependency manifests: the writers must leave what they cannot read alone ------------------------
+DEP_CM = "pixee:python/flask-enable-csrf-protection"
+DEP_SRC = b"from flask import Flask\n\napp = Flask(__name__)\n"
+MANIFEST_FAULTS = {
+    "requirements.txt": {
+        "invalid-utf8": b"requests==2.31.0\nclick>=8 # caf\xe9 \xff\xfe\x00\x9f\nrich\n",
+        "utf16-bom": "requests==2.31.0\nclick>=8\n".encode("utf-16"),
+        "utf16-no-bom": "requests==2.31.0\nclick>=8\n".encode("utf-16-le"),
+        "nul-bytes": b"requests==2.31.0\n\x00\x00\x00click\n",
+        "latin1": "requests==2.31.0  # d\u00e9pendance\nclick>=8\n".encode("latin-1"),
+    },
+    "pyproject.toml": {
+        "toml-syntax-error": b"[project\nname = 'x'\ndependencies = ['requests']\n",
+        "invalid-utf8": b"[project]\nname = 'x\xff\xfe'\ndependencies = ['requests']\n",
+        "dependencies-not-a-list": b"[project]\nname = 'x'\ndependencies = 'requests'\n",
+    },
+    "setup.py": {
+        "syntax-error": b"from setuptools import setup\nsetup(name='x', install_requires=['requests'\n",
+        "invalid-utf8": b"from setuptools import setup\n# \xff\xfe\nsetup(name='x', install_requires=['requests'])\n",
+    },
+    "setup.cfg": {
+        "no-section-header": b"install_requires =\n    requests\n",
+        "invalid-utf8": b"[options]\n# \xff\xfe\ninstall_requires =\n    requests\n",
+        "duplicate-option": b"[options]\ninstall_requires = requests\ninstall_requires = click\n",
+    },
+}
+
+
+def manifest_cfgs(tier):
+    singles = [((m, k),) for m, ks in MANIFEST_FAULTS.items() for k in ks]
+    if tier != "thorough":
+        return singles
+    pairs = [(a[0], b[0]) for a, b in itertools.combinations(singles, 2) if a[0][0] != b[0][0]]
+    return singles + pairs
+
+
+def _lines_kept(before: bytes, after: bytes) -> bool:
+    """Nothing of the original content was destroyed: its lines survive, in order."""
+    it = iter(after.split(b"\n"))
+    return all(any(x == l for x in it) for l in before.split(b"\n") if l)
+
+
+def eval_manifest(cfg):
+    files = {"app.py": DEP_SRC, "other.py": K2_LINE}
+    base = drive.run_inproc(drive.Job(files=dict(files), argv=["{dir}", "--codemod-include", f"{DEP_CM},{K2}"], debug_logs=True))
+    bad = dict(files)
+    for m, k in cfg:
+        bad[m] = MANIFEST_FAULTS[m][k]
+    obs = drive.run_inproc(drive.Job(files=bad, argv=["{dir}", "--codemod-include", f"{DEP_CM},{K2}"], debug_logs=True))
+    for o in (base, obs):
+        if o.error:
+            raise core.HarnessError(o.error)
+    if base.exit != 0 or base.final["app.py"] == DEP_SRC:
+        raise core.HarnessError(f"manifest-free run is not a usable reference (exit {base.exit})")
+    kinds = "+".join(f"{m}:{k}" for m, k in cfg)
+    sig = lambda v: f"manifest|{kinds}|{v}"
+    out = []
+    if obs.exit != 0:
+        return [(sig(f"exit-{obs.exit if isinstance(obs.exit, int) else 'exception'}"), f"run did not exit 0: {obs.exit}; {obs.stderr[-1][-300:]}")]
+    for k, d in codetf.validate(obs.report, before=obs.before, after=obs.final, logs=obs.logs[-1]):
+        out.append((sig(f"report:{k}"), d))
+    for f in files:
+        if obs.final.get(f) != base.final.get(f):
+            out.append((sig("source-file-outcome-differs"), f"{f} ends differently than in the run without the bad manifest"))
+        for c in (DEP_CM, K2):
+            if _per_file(obs.report, c).get(f) != _per_file(base.report, c).get(f):
+                out.append((sig("source-changeset-differs"), f"changeset of {c} for {f} differs from the run without the bad manifest"))
+    for m, k in cfg:
+        b, a = obs.before[m], obs.final.get(m)
+        if a is None or (a != b and not _lines_kept(b, a)):
+            out.append((sig("unprocessable-manifest-content-destroyed"), f"{m} ({k}): {b!r:.120} -> {a!r:.120}"))
+    return out
+
+
 def eval_cfg(cfg):
+    if cfg[0] == "manifest":
+        return eval_manifest(cfg[1])
     pipeline, faults = cfg
     base = drive.run_inproc(job(pipeline, ()))
     obs = drive.run_inproc(job(pipeline, faults))
@@ -199,7 +275,7 @@ def configs(tier):
         for p in PIPELINES:
             for ka, kb in zip(FAULT_KINDS, FAULT_KINDS[3:] + FAULT_KINDS[:3]):
                 cfgs.append((p, ((0, ka), (2, kb))))
-    return cfgs
+    return cfgs + [("manifest", c) for c in manifest_cfgs(tier)]
 
 
 def explore(tier, seed):
@@ -231,11 +307,12 @@ def explore(tier, seed):
         "evaluations": 3 * len(cfgs),
         "distinct_nontrivial": len(set(cfgs)),
         "rule": "case = (pipeline kind, set of (file position, fault kind)); every case runs the faulted project and its fault-free twin through the real run() with a second codemod after the faulted one; all cases inject at least one fault, so all are non-trivial",
-        "samples": [{"pipeline": c[0], "faults": [[FILES[p], k] for p, k in c[1]]} for c in (cfgs[0], cfgs[len(cfgs) // 2], cfgs[-1])],
+        "samples": [{"pipeline": c[0], "faults": [[FILES[p] if isinstance(p, int) else p, k] for p, k in c[1]]} for c in (cfgs[0], cfgs[len(cfgs) // 2], cfgs[-1])],
+        "manifest_faults": {m: sorted(ks) for m, ks in MANIFEST_FAULTS.items()},
         "exhaustive": True,
         "fault_kinds": FAULT_KINDS,
         "pipelines": {k: v[0] for k, v in PIPELINES.items()},
-        "fault_sequences": "all single faults x 3 positions" + (" + all ordered kind pairs on every pair of positions" if tier == "thorough" else " + a diagonal of 9 fault pairs per pipeline"),
+        "fault_sequences": "every unprocessable manifest alone" + (" and every pair of different manifests" if tier == "thorough" else "") + "; all single faults x 3 positions" + (" + all ordered kind pairs on every pair of positions" if tier == "thorough" else " + a diagonal of 9 fault pairs per pipeline"),
         "replay_divergence": divergence,
     }
     assumptions = [
